@@ -6,13 +6,14 @@ import NfcVerif.Lemmas.IsoDepLive
 Liveness counterpart of `Lemmas/IsoDepV2.lean` against the ISO/IEC 14443-4 card.  (That every loop ENDS needs no
 card hypothesis any more: `Lemmas/IsoDepV2Term.lean`.)  If the card asks for waiting time with a multiplier `M` in
 1..59, at most `W` times per block with `W * M ≤ max_wtxm_sum`, sends non-empty chained blocks and a response of at
-most 65539 octets, and the script contains `k` faults with `2k ≤ resendMax n_retry` (none of them a reader protocol error),
+most 65539 octets, and the script contains `k` faults with `2k ≤ resendMax n_retry = n_retry + 1` (none of them a reader
+protocol error),
 every retry loop ends with the block it was waiting for.
 
-With `r = resendMax n` (the count up to which a retransmission after R(ACK) is made, `r ≤ n + 1`) the potential is
-`i + 2k ≤ r + 1` while the block of the round is out and `i + 2k ≤ r` while the retry block is out: a block lost on its way
-TO the card costs two counts (R(NAK), retransmission), and since repair 0010 (`r = n`) both must be within the budget
-(before the repair the second one was free: the bound was `2k ≤ n + 1`).  The card-side bookkeeping (`wl`, `xchg_legs`, `Round.Live`, `rx_live_first`, `rx_live_echo`) is the
+With `r = resendMax n` (the count up to which a retransmission after R(ACK) is made; `r = n + 1`, the proofs use
+`r ≤ n + 1` only) the potential is `i + 2k ≤ r + 1` while the block of the round is out and `i + 2k ≤ r` while the retry
+block is out: a block lost on its way TO the card costs two counts (R(NAK), retransmission), the second of which is not
+subject to the retry limit.  The card-side bookkeeping (`wl`, `xchg_legs`, `Round.Live`, `rx_live_first`, `rx_live_echo`) is the
 one of `Lemmas/IsoDepLive.lean`.
 -/
 namespace NfcVerif.IsoDep2
